@@ -18,6 +18,10 @@ class Abstain(Exception):
     pass
 
 
+class LoopAbstain(Abstain):
+    pass
+
+
 class PathDead(Exception):
     """the path ends in a panic / an `unreachable`: it produces no state and no output"""
 
@@ -26,6 +30,9 @@ class PathDead(Exception):
 # polynomials / rational functions over named symbols
 # ---------------------------------------------------------------------------------------------------------------
 INT_SYMS = set()
+LOSSY = {}          # symbol of a narrowing integer cast that loses bits for an accepted length -> (polynomial in k, bits of the target)
+PARAM_RANGE = {'kmin': 0, 'kmax': 127}     # range of k for the current run (set by the rule from the parameter type and residue class)
+BITS = {'u8': 8, 'u16': 16, 'u32': 32, 'u64': 64, 'usize': 64, 'i8': 7, 'i16': 15, 'i32': 31, 'i64': 63, 'isize': 63}
 
 
 def p_const(c):
@@ -207,10 +214,12 @@ def fresh(kind, args, is_int):
 # ---------------------------------------------------------------------------------------------------------------
 class Aff:
     """lin: depends on the stream; w: coefficient sum of the linear part; c: stream-independent offset; isint: integer typed"""
-    __slots__ = ('lin', 'w', 'c', 'isint')
+    __slots__ = ('lin', 'w', 'c', 'isint', 'co')
 
-    def __init__(self, lin, w, c, isint=False):
-        self.lin, self.w, self.c, self.isint = lin, w, c, isint
+    def __init__(self, lin, w, c, isint=False, co=None):
+        # co: optional explicit coefficients {atom: RF} of the linear part (atoms: the input, the old value of a state leaf);
+        # None = only the sum is known
+        self.lin, self.w, self.c, self.isint, self.co = lin, w, c, isint, co
 
     def __repr__(self):
         if not self.lin:
@@ -398,13 +407,22 @@ class Run:
         isint = a.isint and b.isint
         if op in ('Add', 'Sub'):
             s = 1 if op == 'Add' else -1
-            return Aff(a.lin or b.lin, a.w + (b.w if s == 1 else -b.w), a.c + (b.c if s == 1 else -b.c), isint)
+            co = None
+            ca = a.co if a.lin else {}
+            cb = b.co if b.lin else {}
+            if ca is not None and cb is not None:
+                co = dict(ca)
+                for k, v in cb.items():
+                    nv = co.get(k, ZERO) + (v if s == 1 else -v)
+                    co[k] = nv
+            return Aff(a.lin or b.lin, a.w + (b.w if s == 1 else -b.w), a.c + (b.c if s == 1 else -b.c), isint, co)
         if op == 'Mul':
             if a.lin and b.lin:
                 return TOP
             if b.lin:
                 a, b = b, a
-            return Aff(a.lin, a.w * b.c, a.c * b.c, isint)
+            co = {k: v * b.c for k, v in a.co.items()} if (a.lin and a.co is not None) else None
+            return Aff(a.lin, a.w * b.c, a.c * b.c, isint, co)
         if op == 'Div':
             if b.lin:
                 return TOP
@@ -414,11 +432,28 @@ class Run:
                 if a.lin:
                     return TOP
                 return K(self.floordiv(a.c, b.c), True)
-            return Aff(a.lin, a.w.div(b.c), a.c.div(b.c), False)
+            co = {k: v.div(b.c) for k, v in a.co.items()} if (a.lin and a.co is not None) else None
+            return Aff(a.lin, a.w.div(b.c), a.c.div(b.c), False, co)
         if op == 'Rem' and isint and not a.lin and not b.lin:
             q = self.floordiv(a.c, b.c)
             return K(a.c - q * b.c, True)
         return TOP
+
+    def narrow(self, v, to):
+        """integer cast into a narrower type of a configuration quantity: the identity when the quantity fits for every accepted
+        length (checked over the finite range of the length parameter), otherwise a symbol that remembers what was cast"""
+        bits = BITS.get(to, 64)
+        c = v.c
+        if c.is_poly() and p_syms(c.n) <= {'k'} and PARAM_RANGE['kmax'] - PARAM_RANGE['kmin'] <= 70000:
+            lim = 1 << bits
+            for k in range(PARAM_RANGE['kmin'], PARAM_RANGE['kmax'] + 1):
+                x = p_eval(c.n, {'k': k}) if c.n else Fraction(0)
+                if x < 0 or x >= lim:
+                    sym = fresh('wrap%d' % bits, (c,), True)
+                    LOSSY[next(iter(p_syms(sym.n)))] = (c, bits)
+                    return K(sym, True)
+            return v
+        return K(fresh('wrap%d' % bits, (c,), True), True)
 
     def floordiv(self, a, b):
         if b.is_const() and a.is_poly() and b.const_value() > 0:
@@ -465,7 +500,7 @@ class Run:
         while True:
             visits[bb] = visits.get(bb, 0) + 1
             if visits[bb] > 1:
-                raise Abstain('loop in %s' % body.id)
+                raise LoopAbstain('loop in %s' % body.id)
             self.steps += 1
             if self.steps > 20000:
                 raise Abstain('budget')
@@ -579,7 +614,9 @@ class Run:
             if not isinstance(v, Aff):
                 return TOP if not isinstance(v, Ref) else v
             if kind == 'IntToFloat':
-                return Aff(v.lin, v.w, v.c, False)
+                return Aff(v.lin, v.w, v.c, False, v.co)
+            if kind == 'IntToInt' and not v.lin and BITS.get(r.get('to'), 64) < BITS.get(r.get('from'), 64):
+                return self.narrow(v, r.get('to'))
             if kind == 'IntToInt' or kind == 'FloatToFloat':
                 return v
             if kind == 'FloatToInt':
@@ -594,7 +631,7 @@ class Run:
         if k == 'un':
             v = self.operand(loc, r['a'])
             if r['op'] == 'Neg' and isinstance(v, Aff):
-                return Aff(v.lin, -v.w, -v.c, v.isint)
+                return Aff(v.lin, -v.w, -v.c, v.isint, {k: -x for k, x in v.co.items()} if v.co is not None else None)
             if r['op'] == 'Not' and isinstance(v, Bool):
                 c = v.cond
                 if c is not None:
@@ -642,7 +679,7 @@ class Run:
         if tr.startswith(('std::ops::', 'core::ops::')) and name in ('add', 'sub', 'mul', 'div', 'rem', 'neg') \
                 and all(isinstance(x, Aff) for x in a):
             if name == 'neg':
-                return Aff(a[0].lin, -a[0].w, -a[0].c, a[0].isint)
+                return Aff(a[0].lin, -a[0].w, -a[0].c, a[0].isint, {k: -x for k, x in a[0].co.items()} if a[0].co is not None else None)
             return self.arith(name.capitalize(), a[0], a[1])
         if tr.startswith(('std::ops::', 'core::ops::')) and name.endswith('_assign') and len(args) == 2 \
                 and isinstance(args[0], Ref) and all(isinstance(x, Aff) for x in a):
@@ -670,7 +707,12 @@ class Run:
         if b is None and c.get('local'):
             b = self.body('G:' + d) or self.body(d)
         if b is not None:
-            return self.call_fn(b, args, depth + 1)
+            try:
+                return self.call_fn(b, args, depth + 1)
+            except LoopAbstain:
+                # a loop inside a callee: the callee is treated like a function without a body (result unknown, everything it could
+                # reach through a reference forgotten); a loop in the analysed function itself still makes the rule abstain
+                d = d + ' (loop)'
         # unknown callee: result unknown, everything reachable through a reference argument forgotten
         self.unknown_calls.add(d)
         for x in args:
